@@ -63,7 +63,10 @@ def Auth.verify (C : Crypto) (a : Auth) (c : Cert) (stream : Bytes) : Outcome Bo
   if C.sha256 stream != a.digest then .err else
   a.pkcs.verify C c
 
-/-- the loop of `PECOFFBinary.Verify`: an error from parsing or verifying any signature ends it -/
+/-- the loop of `PECOFFBinary.Verify`: an error from parsing or verifying any signature ends it.
+The hashed stream is an argument and `a.verify` digests it for every entry: as a value that is what the Go
+code computes whether it hashes the image once per entry (until F38) or once per call on first need (since) -
+the model says nothing about cost; the time is the business of the C13 worker (class `many-signatures`). -/
 def verifySigs (C : Crypto) (certsOk : Bytes → Bool) (c : Cert) (stream : Bytes) : List WinCert → Outcome Bool
   | [] => .err                                  -- ErrNoValidSignatures
   | w :: ws =>
